@@ -356,6 +356,13 @@ def extra_C19(rep, ctx):
     e1_obligations(rep, ctx, lambda o: o['kind'] == 'P-call' and 'StackVec::push' in o['desc'])
 
 
+def extra_C16(rep, ctx):
+    if 'oracle' not in ctx.facts.features:
+        return
+    e1_obligations(rep, ctx, lambda o: o['kind'] == 'C-cast')
+    e1_obligations(rep, ctx, lambda o: o['kind'] == 'R-inv' and o['desc'] == 'construct oracle::Date')
+
+
 def extra_C17(rep, ctx):
     graph.delegation(rep, ctx.facts)
 
@@ -364,7 +371,7 @@ def extra_C18(rep, ctx):
     graph.clock_readers(rep, ctx.facts)
 
 
-EXTRA_RULES = {'C19': extra_C19, 'C06': extra_C06, 'C10': extra_C10, 'C11': extra_C11, 'C15': extra_C15, 'C17': extra_C17, 'C18': extra_C18}
+EXTRA_RULES = {'C16': extra_C16, 'C19': extra_C19, 'C06': extra_C06, 'C10': extra_C10, 'C11': extra_C11, 'C15': extra_C15, 'C17': extra_C17, 'C18': extra_C18}
 
 PROPS = {
     'C01': prop_tables('C01', lambda rep, ctx: tables.c01_tables(rep, ctx.facts),
